@@ -12,6 +12,7 @@ STD_ENUMS = {
     "Ordering": ["Less", "Equal", "Greater"],
     "Bound": ["Included", "Excluded", "Unbounded"],
     "Cow": ["Borrowed", "Owned"],
+    "Entry": ["Occupied", "Vacant"],
     "ErrorKind": ["NotFound", "AlreadyExists", "UnexpectedEof", "InvalidData", "InvalidInput", "Other"],
 }
 
